@@ -510,6 +510,156 @@ theorem inv_purge {O : Nat → Resp} {s : State} (h : Inv O s) : Inv O (purge s)
   · exact h
   · exact inv_frame (frame_release s _ true) h
 
+-- the source-variant flag is configuration: no action changes it -------------------------------------------------------------
+@[simp] theorem setPrivateKey_relFirst (s : State) (e : Nat) (a b : Bool) : (setPrivateKey s e a b).relFirst = s.relFirst :=
+  (frame_setPrivateKey s e a b).relFirst
+@[simp] theorem releaseRequest_relFirst (s : State) (e : Nat) (a : Bool) : (releaseRequest s e a).relFirst = s.relFirst :=
+  (frame_releaseRequest s e a).relFirst
+@[simp] theorem release_relFirst (s : State) (e : Nat) (a : Bool) : (release s e a).relFirst = s.relFirst :=
+  (frame_release s e a).relFirst
+@[simp] theorem find_relFirst (s : State) : (find s).1.relFirst = s.relFirst := (frame_find s).relFirst
+@[simp] theorem makePublic_relFirst (s : State) (e : Nat) : (makePublic s e).1.relFirst = s.relFirst := (frame_makePublic s e).relFirst
+@[simp] theorem removeOldPublic_relFirst (s : State) (e : Nat) (a b : Bool) : (removeOldPublic s e a b).relFirst = s.relFirst :=
+  (frame_removeOldPublic s e a b).relFirst
+@[simp] theorem applyReuse_relFirst (s : State) (e : Nat) (d : Reuse) : (applyReuse s e d).relFirst = s.relFirst :=
+  (frame_applyReuse s e d).relFirst
+
+@[simp] theorem allowCollapsing_relFirst (s : State) (e : Nat) : (allowCollapsing s e).relFirst = s.relFirst := by
+  unfold allowCollapsing
+  split
+  · rfl
+  · dsimp only
+    split
+    · simp
+    · split <;> simp
+
+@[simp] theorem startFetch_relFirst (s : State) (c : Nat) (cl : Client) : (startFetch s c cl).relFirst = s.relFirst := by
+  unfold startFetch
+  dsimp only
+  split <;> simp
+
+@[simp] theorem abort_relFirst (s : State) (e : Nat) : (abort s e).relFirst = s.relFirst := by
+  unfold abort
+  split
+  · rfl
+  · split
+    · rfl
+    · dsimp only
+      split <;> simp
+
+@[simp] theorem finish_relFirst (s : State) (c : Nat) (cl : Client) (v : Verdict) : (finish s c cl v).relFirst = s.relFirst := rfl
+
+theorem step_relFirst (O : Nat → Resp) (s : State) (a : Action) : (step O s a).relFirst = s.relFirst := by
+  cases a with
+  | request nc =>
+    show (request s nc).relFirst = s.relFirst
+    unfold request
+    dsimp only
+    split
+    · simp
+    · split
+      · simp
+      · split
+        · simp
+        · split
+          · simp
+          · split <;> simp
+  | replyHeaders e =>
+    show (replyHeaders O s e).relFirst = s.relFirst
+    unfold replyHeaders
+    split
+    · rfl
+    · split
+      · rfl
+      · dsimp only
+        split
+        · simp
+        · split <;> simp
+  | replyData e k =>
+    show (replyData O s e k).relFirst = s.relFirst
+    unfold replyData
+    split
+    · rfl
+    · split
+      · rfl
+      · split <;> simp
+  | replyEnd e =>
+    show (replyEnd O s e).relFirst = s.relFirst
+    unfold replyEnd
+    split
+    · rfl
+    · split
+      · rfl
+      · split
+        · rfl
+        · split
+          · simp
+          · dsimp only
+            split <;> simp
+  | replyError e =>
+    show (replyError s e).relFirst = s.relFirst
+    unfold replyError
+    split
+    · rfl
+    · split <;> simp
+  | abort e => exact abort_relFirst s e
+  | wake c k =>
+    show (wake s c k).relFirst = s.relFirst
+    unfold wake
+    split
+    · rfl
+    · split
+      · rfl
+      · split
+        · rfl
+        · split
+          · split
+            · rfl
+            · split
+              · split
+                · simp
+                · split
+                  · simp
+                  · split
+                    · rfl
+                    · split <;> simp
+              · split
+                · simp
+                · split <;> simp
+          · split
+            · simp
+            · split
+              · rfl
+              · dsimp only
+                split <;> simp
+          · rfl
+  | clientGone c q =>
+    show (clientGone s c q).relFirst = s.relFirst
+    unfold clientGone
+    split
+    · rfl
+    · split
+      · rfl
+      · dsimp only
+        split <;> simp
+  | evict =>
+    show (evict s).relFirst = s.relFirst
+    unfold evict
+    split
+    · rfl
+    · split <;> simp
+  | purge =>
+    show (purge s).relFirst = s.relFirst
+    unfold purge
+    split <;> simp
+
+theorem run_relFirst (O : Nat → Resp) (s : State) (as : List Action) : (run O s as).relFirst = s.relFirst := by
+  induction as generalizing s with
+  | nil => rfl
+  | cons a as ih =>
+    show (run O (step O s a) as).relFirst = s.relFirst
+    rw [ih, step_relFirst]
+
 theorem inv_init (O : Nat → Resp) (cf rf : Bool) : Inv O (State.init cf rf) := by
   constructor
   · intro e _; rfl
